@@ -363,6 +363,28 @@ fn c01_like(tier: Tier, oracles: Oracles, with_drop: bool) -> Vec<Scenario> {
         let sc = Scenario::new("bulk-blocks", Cfg { num_pages: 16, ..Cfg::default() }, vec![tx(vec![OpSpec::bucket("create", &[], "bulk")])], Box::new(acts), if q { 3 } else { 4 }, oracles);
         out.push(sc);
     }
+    // text keys, values and bucket names with multi-byte UTF-8 characters, handed over as owned
+    // Strings (byte length != character count), in transactions big enough to split leaves, so
+    // that such keys become separators
+    {
+        let key = |i: usize| format!("ключ-ééééééééééééééééééééééééé-{:02}*120", i);
+        let mut acts: Vec<Action> = vec![Action::Reopen];
+        let mut a = vec![OpSpec::bucket("goc", &[], "ведро")];
+        for i in 0..10 {
+            a.push(OpSpec::put(&["ведро"], &key(2 * i), "значение-ü*200"));
+        }
+        acts.push(tx(a));
+        acts.push(tx((0..10).step_by(2).map(|i| OpSpec::del(&["ведро"], &key(2 * i))).collect()));
+        let mut c = vec![OpSpec::bucket("goc", &["ведро"], "внутри-üüüüüüüüüüüü")];
+        for i in 0..8 {
+            c.push(OpSpec::put(&["ведро", "внутри-üüüüüüüüüüüü"], &key(2 * i + 1), "ß*300"));
+            c.push(OpSpec::put(&["ведро"], &key(2 * i + 1), "日本語*150"));
+        }
+        acts.push(tx(c));
+        acts.push(tx(vec![OpSpec::bucket("delb", &["ведро"], "внутри-üüüüüüüüüüüü"), OpSpec::put(&["ведро"], "ключ", "ü")]));
+        let sc = Scenario::new("utf8-text-owned-strings", Cfg { owned_args: true, ..Cfg::default() }, vec![], Box::new(acts), if q { 3 } else { 4 }, oracles);
+        out.push(sc);
+    }
     // keys of a third of a page: branch pages with few, long separators overflow onto a second page
     {
         let bk: Vec<String> = (0..8).map(|i| format!("K{}*350", i)).collect();
